@@ -11,6 +11,7 @@ Dictionaries are observed through `Data.get?`, i.e. the laws are dictionary laws
 import EdzedModel.Filters
 import EdzedProofs.Filters
 import EdzedModel.Gen.Constants
+import EdzedModel.Gen.Translated
 
 namespace Edzed.Filters
 
@@ -469,3 +470,15 @@ example : chain (fun _ => .undef) [.add [("a", Val.int 0)]] [] = .ok [("a", Val.
     Data.get? [("a", Val.int 0)] "a" = some (Val.int 0) := ⟨rfl, by decide +kernel⟩
 
 end Edzed.Filters
+
+/-! ### tie to the source by translation (tools/py2lean.py regenerates `Gen.Tr.edgeCall` from `Edge.__call__`) -/
+namespace Edzed.TrTie
+
+/-- the model's Edge predicate IS the translated body of `Edge.__call__` -/
+theorem translated_edge_is_model (fl : Filters.EdgeFlags) (previous value : Val) :
+    Gen.Tr.edgeCall fl.rise fl.fall fl.urise fl.ufall previous value = Filters.edgePass fl previous value := by
+  unfold Gen.Tr.edgeCall Filters.edgePass
+  cases h1 : previous.isUndef <;> cases h2 : value.truthy <;> cases h3 : previous.truthy <;>
+    cases fl.rise <;> cases fl.fall <;> cases fl.urise <;> cases fl.ufall <;> simp [h1, h2, h3]
+
+end Edzed.TrTie
